@@ -46,7 +46,7 @@ func (f *OrefaFile) Chdir() error {
 		return &fs.PathError{Op: op, Path: f.name, Err: fs.ErrClosed}
 	}
 
-	if !f.nd.mode.IsDir() {
+	if !f.nd.isDir() {
 		err := error(avfs.ErrNotADirectory)
 		if f.vfs.OSType() == avfs.OsWindows {
 			err = avfs.ErrWinDirNameInvalid
@@ -81,7 +81,10 @@ func (f *OrefaFile) Chmod(mode fs.FileMode) error {
 		return &fs.PathError{Op: op, Path: f.name, Err: fs.ErrClosed}
 	}
 
+	avfs.VerifBeforeLock(&f.nd.mu, true)
+	f.nd.mu.Lock()
 	f.nd.setMode(mode)
+	f.nd.mu.Unlock()
 
 	return nil
 }
@@ -114,7 +117,10 @@ func (f *OrefaFile) Chown(uid, gid int) error {
 		return &fs.PathError{Op: op, Path: f.name, Err: avfs.ErrWinNotSupported}
 	}
 
+	avfs.VerifBeforeLock(&f.nd.mu, true)
+	f.nd.mu.Lock()
 	f.nd.setOwner(uid, gid)
+	f.nd.mu.Unlock()
 
 	return nil
 }
@@ -183,7 +189,7 @@ func (f *OrefaFile) Read(b []byte) (n int, err error) {
 	}
 
 	nd := f.nd
-	if nd.mode.IsDir() {
+	if nd.isDir() {
 		err = avfs.ErrIsADirectory
 		if f.vfs.OSType() == avfs.OsWindows {
 			err = avfs.ErrWinIncorrectFunc
@@ -236,7 +242,7 @@ func (f *OrefaFile) ReadAt(b []byte, off int64) (n int, err error) {
 	}
 
 	nd := f.nd
-	if nd.mode.IsDir() {
+	if nd.isDir() {
 		err = avfs.ErrIsADirectory
 		if f.vfs.OSType() == avfs.OsWindows {
 			err = avfs.ErrWinIncorrectFunc
@@ -307,7 +313,7 @@ func (f *OrefaFile) ReadDir(n int) ([]fs.DirEntry, error) {
 	}
 
 	nd := f.nd
-	if !nd.mode.IsDir() {
+	if !nd.isDir() {
 		return nil, &fs.PathError{Op: op, Path: f.name, Err: f.vfs.err.NotADirectory}
 	}
 
@@ -386,7 +392,7 @@ func (f *OrefaFile) Readdirnames(n int) (names []string, err error) {
 	}
 
 	nd := f.nd
-	if !nd.mode.IsDir() {
+	if !nd.isDir() {
 		return nil, &fs.PathError{Op: op, Path: f.name, Err: f.vfs.err.NotADirectory}
 	}
 
@@ -450,7 +456,7 @@ func (f *OrefaFile) Seek(offset int64, whence int) (ret int64, err error) {
 	}
 
 	nd := f.nd
-	if nd.mode.IsDir() {
+	if nd.isDir() {
 		return 0, nil
 	}
 
@@ -572,7 +578,7 @@ func (f *OrefaFile) Truncate(size int64) error {
 	}
 
 	nd := f.nd
-	if nd.mode.IsDir() {
+	if nd.isDir() {
 		err := error(avfs.ErrInvalidArgument)
 		if f.vfs.OSType() == avfs.OsWindows {
 			err = avfs.ErrWinAccessDenied
@@ -628,7 +634,7 @@ func (f *OrefaFile) Write(b []byte) (n int, err error) {
 	}
 
 	nd := f.nd
-	if nd.mode.IsDir() {
+	if nd.isDir() {
 		err = avfs.ErrBadFileDesc
 		if f.vfs.OSType() == avfs.OsWindows {
 			err = avfs.ErrWinAccessDenied
@@ -699,7 +705,7 @@ func (f *OrefaFile) WriteAt(b []byte, off int64) (n int, err error) {
 	}
 
 	nd := f.nd
-	if nd.mode.IsDir() {
+	if nd.isDir() {
 		err = avfs.ErrBadFileDesc
 		if f.vfs.OSType() == avfs.OsWindows {
 			err = avfs.ErrWinAccessDenied
